@@ -10,7 +10,10 @@ pub enum Node {
 pub struct Ent { pub node: Node, pub mode: int }
 pub struct IoError { pub not_found: bool }
 pub struct FsState { pub nodes: Map<PathV, Ent> }
-pub struct World { pub st: Ghost<FsState>, pub faults: Ghost<nat> }
+// process-level state the runtime reads and the events it produces (C05/C06); no file-system operation touches it
+pub enum Event { Detect, Build, OnError }
+pub struct ProcState { pub argv: Seq<Seq<char>>, pub env: Map<Seq<char>, Seq<char>>, pub cwd: Option<PathV>, pub log: Seq<Event> }
+pub struct World { pub st: Ghost<FsState>, pub faults: Ghost<nat>, pub proc: Ghost<ProcState> }
 impl FsState {
     pub open spec fn has(&self, p: PathV) -> bool { self.nodes.contains_key(p) }
     pub open spec fn node(&self, p: PathV) -> Node { self.nodes[p].node }
@@ -53,6 +56,7 @@ impl FsState {
     pub open spec fn nothing_under(&self, d: PathV) -> bool { forall|p: PathV| #![trigger self.has(p)] #![trigger self.nodes.contains_key(p)] is_prefix(d, p) ==> !self.has(p) }
     pub open spec fn nothing_strictly_under(&self, d: PathV) -> bool { forall|p: PathV| #![trigger self.has(p)] #![trigger self.nodes.contains_key(p)] strictly_under(d, p) ==> !self.has(p) }
 }
+#[derive(Structural, PartialEq, Eq)]
 pub enum ErrorKind { NotFound, Other }
 impl IoError {
     #[verifier::external_body]
@@ -116,20 +120,20 @@ impl World {
     // ---- queries: deterministic in the state, never fault (stat errors read as `false`, as std does)
     #[verifier::external_body]
     pub fn path_exists<P: AsRef<Path>>(&mut self, p: &P) -> (r: bool)   // stat(2): follows; dangling link => false
-        ensures final(self).fs() == old(self).fs(), final(self).faults@ == old(self).faults@, r == old(self).fs().resolves(p.path_view())
+        ensures final(self).proc@ == old(self).proc@, final(self).fs() == old(self).fs(), final(self).faults@ == old(self).faults@, r == old(self).fs().resolves(p.path_view())
     { unimplemented!() }
     #[verifier::external_body]
     pub fn path_is_dir<P: AsRef<Path>>(&mut self, p: &P) -> (r: bool)   // stat(2): follows
-        ensures final(self).fs() == old(self).fs(), final(self).faults@ == old(self).faults@, r == old(self).fs().is_dir_f(p.path_view())
+        ensures final(self).proc@ == old(self).proc@, final(self).fs() == old(self).fs(), final(self).faults@ == old(self).faults@, r == old(self).fs().is_dir_f(p.path_view())
     { unimplemented!() }
     #[verifier::external_body]
     pub fn path_is_file<P: AsRef<Path>>(&mut self, p: &P) -> (r: bool)  // stat(2): follows
-        ensures final(self).fs() == old(self).fs(), final(self).faults@ == old(self).faults@, r == old(self).fs().is_file_f(p.path_view())
+        ensures final(self).proc@ == old(self).proc@, final(self).fs() == old(self).fs(), final(self).faults@ == old(self).faults@, r == old(self).fs().is_file_f(p.path_view())
     { unimplemented!() }
     // d_type / lstat(2): does not follow
     #[verifier::external_body]
     pub fn path_file_type(&mut self, e: &DirEntry) -> (r: Result<FileType, IoError>)
-        ensures final(self).fs() == old(self).fs(), final(self).faults@ >= old(self).faults@,
+        ensures final(self).proc@ == old(self).proc@, final(self).fs() == old(self).fs(), final(self).faults@ >= old(self).faults@,
             r is Err ==> final(self).faults@ > old(self).faults@ || !old(self).fs().has(e.p@),
             r is Err && final(self).faults@ > old(self).faults@ ==> !r->Err_0.not_found,
             r matches Ok(ft) ==> final(self).faults@ == old(self).faults@ && old(self).fs().has(e.p@)
@@ -139,7 +143,7 @@ impl World {
     // lstat(2): does not follow the last component
     #[verifier::external_body]
     pub fn path_symlink_metadata<P: AsRef<Path>>(&mut self, p: &P) -> (r: Result<Metadata, IoError>)
-        ensures final(self).fs() == old(self).fs(), final(self).faults@ >= old(self).faults@,
+        ensures final(self).proc@ == old(self).proc@, final(self).fs() == old(self).fs(), final(self).faults@ >= old(self).faults@,
             r matches Ok(m) ==> final(self).faults@ == old(self).faults@ && old(self).fs().has(p.path_view())
                 && m.dir == (old(self).fs().node(p.path_view()) is Dir) && m.link == (old(self).fs().node(p.path_view()) is Link)
                 && m.file == (old(self).fs().node(p.path_view()) is File),
@@ -151,7 +155,7 @@ impl World {
     #[verifier::external_body]
     pub fn fs_set_permissions<P: AsRef<Path>>(&mut self, p: P, perm: Permissions) -> (r: Result<(), IoError>)
         requires old(self).fs().wf()
-        ensures final(self).fs().wf(), final(self).faults@ >= old(self).faults@,
+        ensures final(self).proc@ == old(self).proc@, final(self).fs().wf(), final(self).faults@ >= old(self).faults@,
             r is Ok ==> final(self).faults@ == old(self).faults@ && old(self).fs().resolves(p.path_view())
                 && final(self).fs().nodes == old(self).fs().nodes.insert(old(self).fs().follow(p.path_view())->0,
                         Ent { node: old(self).fs().node(old(self).fs().follow(p.path_view())->0), mode: perm.m as int }),
@@ -163,7 +167,7 @@ impl World {
     // ---- opendir(3)+readdir(3): follows a symlink in the last component; duplicate-free snapshot of the children
     #[verifier::external_body]
     pub fn fs_read_dir<P: AsRef<Path>>(&mut self, p: P) -> (r: Result<ReadDir, IoError>)
-        ensures final(self).fs() == old(self).fs(), final(self).faults@ >= old(self).faults@,
+        ensures final(self).proc@ == old(self).proc@, final(self).fs() == old(self).fs(), final(self).faults@ >= old(self).faults@,
             r is Err ==> final(self).faults@ > old(self).faults@ || !old(self).fs().is_dir_f(p.path_view()),
             r is Err && final(self).faults@ == old(self).faults@ ==> (r->Err_0.not_found <==> !old(self).fs().resolves(p.path_view())),
             r is Err && final(self).faults@ > old(self).faults@ ==> !r->Err_0.not_found,
@@ -184,7 +188,7 @@ impl World {
     #[verifier::external_body]
     pub fn fs_remove_file<P: AsRef<Path>>(&mut self, p: P) -> (r: Result<(), IoError>)
         requires old(self).fs().wf()
-        ensures final(self).fs().wf(), final(self).faults@ >= old(self).faults@,
+        ensures final(self).proc@ == old(self).proc@, final(self).fs().wf(), final(self).faults@ >= old(self).faults@,
             r is Ok ==> final(self).faults@ == old(self).faults@ && old(self).fs().has(p.path_view()) && !(old(self).fs().node(p.path_view()) is Dir)
                 && final(self).fs().nodes == old(self).fs().nodes.remove(p.path_view())
                 // (consequence of wf: a non-directory has no children)
@@ -198,7 +202,7 @@ impl World {
     #[verifier::external_body]
     pub fn fs_remove_dir<P: AsRef<Path>>(&mut self, p: P) -> (r: Result<(), IoError>)
         requires old(self).fs().wf()
-        ensures final(self).fs().wf(), final(self).faults@ >= old(self).faults@,
+        ensures final(self).proc@ == old(self).proc@, final(self).fs().wf(), final(self).faults@ >= old(self).faults@,
             r is Ok ==> final(self).faults@ == old(self).faults@ && old(self).fs().is_dir(p.path_view())
                 && old(self).fs().nothing_strictly_under(p.path_view())
                 && final(self).fs().nodes == old(self).fs().nodes.remove(p.path_view()),
@@ -211,7 +215,7 @@ impl World {
     #[verifier::external_body]
     pub fn fs_remove_dir_all<P: AsRef<Path>>(&mut self, p: P) -> (r: Result<(), IoError>)
         requires old(self).fs().wf()
-        ensures final(self).fs().wf(), final(self).fs().same_outside(old(self).fs(), p.path_view()),
+        ensures final(self).proc@ == old(self).proc@, final(self).fs().wf(), final(self).fs().same_outside(old(self).fs(), p.path_view()),
             final(self).faults@ >= old(self).faults@,
             r is Ok ==> final(self).fs().nothing_under(p.path_view()) && final(self).faults@ == old(self).faults@,
             r is Err && final(self).faults@ == old(self).faults@ ==> final(self).fs() == old(self).fs(),
@@ -221,7 +225,7 @@ impl World {
     #[verifier::external_body]
     pub fn fs_create_dir_all<P: AsRef<Path>>(&mut self, p: P) -> (r: Result<(), IoError>)
         requires old(self).fs().wf()
-        ensures final(self).fs().wf(), final(self).faults@ >= old(self).faults@,
+        ensures final(self).proc@ == old(self).proc@, final(self).fs().wf(), final(self).faults@ >= old(self).faults@,
             forall|q: PathV| #[trigger] old(self).fs().has(q) ==> final(self).fs().has(q) && final(self).fs().nodes[q] == old(self).fs().nodes[q],
             forall|q: PathV| #[trigger] final(self).fs().has(q) && !old(self).fs().has(q) ==> is_prefix(q, p.path_view()) && final(self).fs().node(q) is Dir,
             r is Ok ==> final(self).fs().is_dir_f(p.path_view()) && final(self).faults@ == old(self).faults@,
@@ -233,7 +237,7 @@ impl World {
     #[verifier::external_body]
     pub fn fs_write<P: AsRef<Path>, D: BytesLike>(&mut self, p: P, data: D) -> (r: Result<(), IoError>)
         requires old(self).fs().wf()
-        ensures final(self).fs().wf(), final(self).faults@ >= old(self).faults@,
+        ensures final(self).proc@ == old(self).proc@, final(self).fs().wf(), final(self).faults@ >= old(self).faults@,
             r is Ok ==> final(self).faults@ == old(self).faults@ && p.path_view().len() > 0
                 && old(self).fs().is_dir(p.path_view().drop_last())
                 && !(old(self).fs().has(p.path_view()) && old(self).fs().node(p.path_view()) is Dir)
@@ -247,7 +251,7 @@ impl World {
     // ---- read(2) whole file: follows the last component
     #[verifier::external_body]
     pub fn fs_read<P: AsRef<Path>>(&mut self, p: P) -> (r: Result<Vec<u8>, IoError>)
-        ensures final(self).fs() == old(self).fs(), final(self).faults@ >= old(self).faults@,
+        ensures final(self).proc@ == old(self).proc@, final(self).fs() == old(self).fs(), final(self).faults@ >= old(self).faults@,
             r matches Ok(v) ==> final(self).faults@ == old(self).faults@ && old(self).fs().is_file_f(p.path_view())
                 && v@ == old(self).fs().content(old(self).fs().follow(p.path_view())->0),
             r is Err && final(self).faults@ == old(self).faults@ ==> !old(self).fs().is_file_f(p.path_view()),
@@ -257,7 +261,7 @@ impl World {
     // non-UTF-8 content is a deterministic InvalidData error (not an environmental fault)
     #[verifier::external_body]
     pub fn fs_read_to_string<P: AsRef<Path>>(&mut self, p: P) -> (r: Result<String, IoError>)
-        ensures final(self).fs() == old(self).fs(), final(self).faults@ >= old(self).faults@,
+        ensures final(self).proc@ == old(self).proc@, final(self).fs() == old(self).fs(), final(self).faults@ >= old(self).faults@,
             r matches Ok(s) ==> final(self).faults@ == old(self).faults@ && old(self).fs().is_file_f(p.path_view())
                 && utf8(s@) == old(self).fs().content(old(self).fs().follow(p.path_view())->0),
             r is Err && final(self).faults@ == old(self).faults@ ==> (!old(self).fs().is_file_f(p.path_view())
